@@ -62,6 +62,9 @@ type c41Cli struct {
 	// Tail > 0: the server first writes Warm bytes in one Write (more than the 1 MB after which a
 	// DynamicRecord connection switches to 16384-byte records) and then Tail bytes in a second Write
 	Warm, Tail int
+	// C2S: sizes of the client's writes (one Write each, dynamic record sizing off so that a write of
+	// n <= 16384 bytes is one record of n bytes); S2C: sizes of the server's writes. Empty = default plan.
+	C2S, S2C []int
 }
 
 func (c *c41Cli) sni(round int) string {
@@ -146,7 +149,8 @@ func (c *c41Cli) build(cache tls.ClientSessionCache) *tls.Config { return c.buil
 
 func (c *c41Cli) buildFor(cache tls.ClientSessionCache, sni string) *tls.Config {
 	cfg := &tls.Config{MinVersion: c.Min, MaxVersion: c.Max, CipherSuites: append([]uint16{}, c.Suites...),
-		InsecureSkipVerify: true, ServerName: sni, NextProtos: c.Protos, ClientSessionCache: cache}
+		InsecureSkipVerify: true, ServerName: sni, NextProtos: c.Protos, ClientSessionCache: cache,
+		DynamicRecordSizingDisabled: len(c.C2S) > 0}
 	for _, cv := range c.Curves {
 		cfg.CurvePreferences = append(cfg.CurvePreferences, tls.CurveID(cv))
 	}
@@ -306,6 +310,12 @@ func runPair(srvCfg *bfe_tls.Config, cliCfg *tls.Config, c2s []byte, s2cWrites .
 }
 
 func runPairVia(mk srvMaker, cliCfg *tls.Config, c2s []byte, s2cWrites ...[]byte) (res pairResult) {
+	return runPairSplit(mk, cliCfg, [][]byte{c2s}, s2cWrites)
+}
+
+// runPairSplit: the client performs one Write per element of c2sWrites, the server one per element of s2cWrites.
+func runPairSplit(mk srvMaker, cliCfg *tls.Config, c2sWrites, s2cWrites [][]byte) (res pairResult) {
+	c2s := bytes.Join(c2sWrites, nil)
 	s2c := bytes.Join(s2cWrites, nil)
 	cEnd, sEnd := bufPipe()
 	wd := newWatchdog(90*time.Second, cEnd, sEnd)
@@ -349,8 +359,14 @@ func runPairVia(mk srvMaker, cliCfg *tls.Config, c2s []byte, s2cWrites ...[]byte
 	res.cliErr = cli.Handshake()
 	if res.cliErr == nil {
 		res.cli = cli.ConnectionState()
-		if _, err := cli.Write(c2s); err != nil {
-			res.dataNote = "client write: " + err.Error()
+		var werr error
+		for _, wr := range c2sWrites {
+			if _, werr = cli.Write(wr); werr != nil {
+				break
+			}
+		}
+		if werr != nil {
+			res.dataNote = "client write: " + werr.Error()
 		} else {
 			got := make([]byte, len(s2c))
 			if _, err := io.ReadFull(cli, got); err != nil {
@@ -470,7 +486,23 @@ func c41CheckNeg(tb ev.TB, rec *ev.Rec, s *c41Srv, c *c41Cli, dataLen int) {
 				}
 			}
 		}
-		res := runPair(srvCfg, c.buildFor(cache, sni), c2s, s2cw...)
+		c2sw := [][]byte{c2s}
+		if round == 0 && (len(c.C2S) > 0 || len(c.S2C) > 0) {
+			rec.Class("neg/write-size-plan")
+			if len(c.C2S) > 0 {
+				c2sw = nil
+				for i, n := range c.C2S {
+					c2sw = append(c2sw, patternBytes(n, byte(0x5a+i)))
+				}
+			}
+			if len(c.S2C) > 0 {
+				s2cw = nil
+				for i, n := range c.S2C {
+					s2cw = append(s2cw, patternBytes(n, byte(0xc3+i)))
+				}
+			}
+		}
+		res := runPairSplit(directServer(srvCfg), c.buildFor(cache, sni), c2sw, s2cw)
 		if res.inconclusive {
 			rec.Excluded("watchdog")
 			return
@@ -858,6 +890,19 @@ func drawCli(rt *rapid.T) *c41Cli {
 		if c.Tail < 1 {
 			c.Tail = 1
 		}
+	} else if rapid.IntRange(0, 3).Draw(rt, "sizeplan") == 0 {
+		// sizes around the powers of two where buffers grow and around the 16384-byte record limit
+		edge := func(label string) int {
+			k := rapid.SampledFrom([]int{1024, 1024, 2048, 4096, 8192, 16384, 16384, 32768}).Draw(rt, label+"-pow")
+			n := k + rapid.IntRange(-40, 8).Draw(rt, label+"-delta")
+			return n
+		}
+		for i, n := 0, rapid.IntRange(1, 3).Draw(rt, "ns2c"); i < n; i++ {
+			c.S2C = append(c.S2C, edge("s2c"))
+		}
+		for i, n := 0, rapid.IntRange(1, 3).Draw(rt, "nc2s"); i < n; i++ {
+			c.C2S = append(c.C2S, edge("c2s"))
+		}
 	}
 	return c
 }
@@ -925,6 +970,37 @@ func TestC41(t *testing.T) {
 			srv := &c41Srv{Cert: "rsa", HasRules: true, Rules: map[string]c41Rule{"": {Grade: "C", Dyn: true}}}
 			cli := &c41Cli{Min: vTLS10, Max: vTLS12, Suites: []uint16{suite}, SNI2: "=", Warm: 1<<20 + 100, Tail: tail}
 			c41CheckNeg(t, rec, srv, cli, 500)
+		}
+	}
+	// deterministic: "application data then flows intact in both directions" at the sizes where the record
+	// layer's buffers grow (server's first write, every size 900..1100 on AEAD suites, 990..1030 on the others)
+	// and at the record size limit (client records of 16384-24..16384 bytes, every suite class x TLS1.1/1.2)
+	for _, suite := range []uint16{0xc02f, 0xcca8, 0xc013, 0x0005} {
+		lo, hi := 900, 1100
+		if suite != 0xc02f {
+			lo, hi = 990, 1030
+		}
+		if ev.Tier() == "thorough" {
+			lo, hi = 880, 1120
+		}
+		for n := lo; n <= hi; n++ {
+			srv := &c41Srv{Cert: "rsa", HasRules: true, Rules: map[string]c41Rule{"": {Grade: "C", Chacha: true}}}
+			cli := &c41Cli{Min: vTLS10, Max: vTLS12, Suites: []uint16{suite}, SNI2: "=", S2C: []int{n, 40}}
+			c41CheckNeg(t, rec, srv, cli, 64)
+		}
+	}
+	for _, suite := range []uint16{0xc02f, 0xcca8, 0xc013, 0x002f, 0x000a, 0x0005} {
+		for _, v := range []uint16{vTLS10, vTLS11, vTLS12} {
+			if si := suiteByID(suite); si.tls12 && v != vTLS12 {
+				continue
+			}
+			var sizes []int
+			for n := 16384 - 24; n <= 16384; n++ {
+				sizes = append(sizes, n)
+			}
+			srv := &c41Srv{Cert: "rsa", HasRules: true, Rules: map[string]c41Rule{"": {Grade: "C", Chacha: true}}}
+			cli := &c41Cli{Min: v, Max: v, Suites: []uint16{suite}, SNI2: "=", C2S: sizes}
+			c41CheckNeg(t, rec, srv, cli, 64)
 		}
 	}
 	// deterministic: the version range must survive ticket-key reloads (Clone + UpdateListener path)
